@@ -33,7 +33,7 @@ def run_mc(ck, plan, timeout):
 
 
 
-def run_traces(ck, jobs, out, precs=("d",), variant="verif", check_id=None, keep_failed=True, judge=None):
+def run_traces(ck, jobs, out, precs=("d",), variant="verif", check_id=None, keep_failed=True, judge=None, accept_abort=False):
     """Run the jobs on the real library, validate every recorded factorization against SluPipeTrace.
     judge(job, cfg, result_record) may return a string describing a property-specific violation."""
     check_id = check_id or ck.pid
@@ -45,6 +45,10 @@ def run_traces(ck, jobs, out, precs=("d",), variant="verif", check_id=None, keep
         for j, r in results:
             st = status.get(j["id"], "missing")
             key = "trace:%s:" % prec + pipe.job_line({k: v for k, v in j.items() if k not in ("out", "id", "timeout")})
+            if st == "exit:42" and accept_abort:
+                ck.case(key)
+                ck.notes["stopped_by_library_diagnostic"] = ck.notes.get("stopped_by_library_diagnostic", 0) + 1
+                continue
             if st != "ok":
                 ck.case(key)
                 ck.violation(key, "real factorization did not complete normally (%s): %s" % (st, pipe.job_line(j)), {"job": j, "precision": prec})
